@@ -6,7 +6,7 @@
                    <<"gslice", elem, seq>>             non-nil typed slice ([]T, []*T, []string, []float64)
                    <<"num", p, q>>, <<"str", cps>>, <<"bool", b>>   float64 / string / bool leaves
    The two struct types of the universe (the harness declares the same Go types):
-       Inner { A float64; B string; C []string }
+       Inner { A float64; B string; C []string; Él string }
        Outer { A Inner; B *Inner; C []Inner; D []*Inner; E []float64; F []string; G bool; H string }
    A field name in an expression is matched after upper-casing its first letter, so the JSON form of a
    struct has the lower-cased names as keys:  J(struct) = object, J(nil pointer) = null, J(pointer) = J(pointee),
@@ -18,7 +18,9 @@ GStruct(t, fs) == <<"gstruct", t, fs>>
 GPtr(t, v) == <<"gptr", t, v>>
 GNil(t) == <<"gnil", t>>
 GSlice(el, xs) == <<"gslice", el, xs>>
-LowerFirst(name) == IF name # <<>> /\ name[1] \in 65..90 THEN <<name[1] + 32>> \o Tail(name) ELSE name
+LowerFirst(name) == IF name # <<>> /\ name[1] \in 65..90 THEN <<name[1] + 32>> \o Tail(name)
+                    ELSE IF name # <<>> /\ name[1] = 201 THEN <<233>> \o Tail(name)      \* E-acute: the one non-ASCII initial of the universe
+                    ELSE name
 RECURSIVE J(_)
 J(g) == CASE g[1] = "gstruct" -> Obj({<<LowerFirst(g[3][i][1]), J(g[3][i][2])>> : i \in 1..Len(g[3])})
           [] g[1] = "gptr" -> J(g[3])
@@ -35,7 +37,8 @@ LowerFields(e) == IF e[1] = "Field" THEN Field(LowerFirst(e[2]))
                   ELSE LET ks == Kids(e) IN IF ks = <<>> THEN e ELSE WithKids(e, [i \in 1..Len(ks) |-> LowerFields(ks[i])])
 
 fldA == <<65>>  fldB == <<66>>  fldC == <<67>>  fldD == <<68>>  fldE == <<69>>  fldF == <<70>>  fldG == <<71>>  fldH == <<72>>
-Inner(a, b, c) == GStruct("Inner", << <<fldA, a>>, <<fldB, b>>, <<fldC, GSlice("string", c)>> >>)
+fldEl == <<201, 108>>        \* a field whose name starts with a non-ASCII letter (upper-case E-acute, then l)
+Inner(a, b, c) == GStruct("Inner", << <<fldA, a>>, <<fldB, b>>, <<fldC, GSlice("string", c)>>, <<fldEl, b>> >>)
 Outer(a, b, c, d, e, f, gg, h) == GStruct("Outer", << <<fldA, a>>, <<fldB, b>>, <<fldC, GSlice("Inner", c)>>, <<fldD, GSlice("*Inner", d)>>,
                                                       <<fldE, GSlice("float64", e)>>, <<fldF, GSlice("string", f)>>, <<fldG, Bool(gg)>>, <<fldH, h>> >>)
 In1 == Inner(I(1), S(<<120>>), <<S(cA), S(cB)>>)
